@@ -18,9 +18,9 @@ open Wac Wac.Ast Wac.Lex Wac.Parse Wac.Spec.Grammar
 
 
 
-theorem next_of_peekTok {st : PState} {k : Token} (h : peekTok st = some k) :
+theorem next_of_nextTok {st : PState} {k : Token} (h : nextTok st = some k) :
     st.next = (some (tokAt st), adv st) := by
-  have h1 := (toks_of_peekTok h).1
+  have h1 := (toks_of_nextTok h).1
   unfold adv tokAt
   unfold PState.next
   cases hs : st.toks with
@@ -29,18 +29,18 @@ theorem next_of_peekTok {st : PState} {k : Token} (h : peekTok st = some k) :
 
 theorem abs_length_tc (st : PState) : (abs st).length = st.toks.length := by simp [abs]
 
-theorem peekTok_ne_of_peekIn {st : PState} {ks : List Token} {k : Token} (h : peekIn st ks = true)
-    (hk : k ∉ ks) : peekTok st ≠ some k := by
+theorem nextTok_ne_of_peekIn {st : PState} {ks : List Token} {k : Token} (h : peekIn st ks = true)
+    (hk : k ∉ ks) : nextTok st ≠ some k := by
   obtain ⟨k', h1, h2⟩ := (peekIn_iff _ _).mp h
   intro h3; rw [h3] at h1; cases h1; exact hk h2
 
 theorem parseOptional_some {α} {st st' : PState} {k : Token} {cb : PState → PR α} {a : α}
-    (h : peekTok st = some k) (hcb : cb (adv st) = .ok (a, st')) :
+    (h : nextTok st = some k) (hcb : cb (adv st) = .ok (a, st')) :
     parseOptional st k cb = .ok (some a, st') :=
   parseOptional_eq_ok.mpr (.inl ⟨h, a, hcb, rfl⟩)
 
 theorem parseOptional_none {α} {st : PState} {k : Token} {cb : PState → PR α}
-    (h : peekTok st ≠ some k) (he : peekErr st = false) :
+    (h : nextTok st ≠ some k) (he : peekErr st = false) :
     parseOptional st k cb = .ok (none, st) :=
   parseOptional_eq_ok.mpr (.inr ⟨h, he, rfl, rfl⟩)
 
@@ -80,7 +80,7 @@ theorem sepBy_len {β : Type} {p : SP β} (stop : Token)
     obtain ⟨st1, habs, hl⟩ := hitem _ _ _ h1 (.inl rfl)
     rw [comma_eq] at habs
     obtain ⟨hp1, habs2⟩ := abs_adv_of_cons (k := .Comma) rfl habs
-    have hl1 := len_of_peekTok hp1
+    have hl1 := len_of_nextTok hp1
     have := ih (adv st1) habs2.symm hr
     omega
 
@@ -104,13 +104,13 @@ theorem delimited_list1 {α β : Type} (stop : Token) (peeks : List Token) (item
     (hitem : ∀ st a r1, (a, r1) ∈ p (abs st) →
         (r1.head? = some comma ∨ r1.head? = some (litTok stop)) →
         ∃ x st1, item st = .ok (x, st1) ∧ er x = a ∧ abs st1 = r1 ∧
-          st1.toks.length < st.toks.length ∧ peekIn st peeks = true ∧ peekTok st ≠ some stop)
+          st1.toks.length < st.toks.length ∧ peekIn st peeks = true ∧ nextTok st ≠ some stop)
     {xs : List β} {r1 r : List STok} (n : Nat) (st : PState)
     (h : (xs, r1) ∈ list1 p n (abs st)) (hr : r1 = litTok stop :: r) (fuel : Nat)
     (hfuel : n + 2 ≤ fuel) :
     ∃ ys st', parseDelimited stop true peeks item fuel st = .ok (ys, st') ∧ ys.map er = xs ∧
       ys.isEmpty = false ∧ peekIn st peeks = true ∧
-      peekTok st' = some stop ∧ abs (adv st') = r ∧ st'.toks.length < st.toks.length := by
+      nextTok st' = some stop ∧ abs (adv st') = r ∧ st'.toks.length < st.toks.length := by
   obtain ⟨hsep, hlen⟩ := (mem_list1 _ _ _ _ _).mp h
   have hstop' : r1.head? = some (litTok stop) := by rw [hr]; rfl
   obtain ⟨ys, st', hdel, hys, habs⟩ := parseDelimited_commas_complete stop peeks item er p hstop hne
@@ -135,12 +135,12 @@ theorem delimited_list1 {α β : Type} (stop : Token) (peeks : List Token) (item
 
 
 theorem parseOptional_of_peek {α} {st : PState} {k : Token} (cb : PState → PR α)
-    (h : peekTok st = some k) :
+    (h : nextTok st = some k) :
     parseOptional st k cb = (cb (adv st) >>= fun p => .ok (some p.1, p.2)) := by
   cases hcb : cb (adv st) with
   | ok v => obtain ⟨a, st'⟩ := v; exact parseOptional_some h hcb
   | error e =>
-    have ⟨h1, h2⟩ := toks_of_peekTok h
+    have ⟨h1, h2⟩ := toks_of_nextTok h
     rw [tok?_eq_some] at h2
     unfold adv at hcb
     unfold parseOptional PState.peek
@@ -161,7 +161,7 @@ theorem gType_first {g : Nat} {st : PState} {x : Ty} {r : List STok}
 
 theorem mem_gTypeOrHole {g : Nat} {st : PState} {x : Option Ty} {r : List STok} :
     (x, r) ∈ gTypeOrHole g (abs st) ↔ ∃ g', g = g' + 1 ∧
-      ((peekTok st = some .Underscore ∧ x = none ∧ r = abs (adv st)) ∨
+      ((nextTok st = some .Underscore ∧ x = none ∧ r = abs (adv st)) ∨
        (∃ ty, (ty, r) ∈ gType g' (abs st) ∧ x = some ty)) := by
   cases g with
   | zero => simp [gTypeOrHole]
@@ -177,7 +177,7 @@ def holeP (pf : Nat) (st : PState) : PR (Option Ty) :=
     .ok (some t, st)
   else .error (lookaheadError st (.Underscore :: typePeeks))
 
-theorem parseType_result (pf : Nat) (st : PState) (h : peekTok st = some .ResultKeyword) :
+theorem parseType_result (pf : Nat) (st : PState) (h : nextTok st = some .ResultKeyword) :
     parseType (pf + 1) st = (do
       let (kw, st) ← parseToken st .ResultKeyword
       let inner (st : PState) : PR (Option Ty × Option Ty × Span) := do
@@ -205,13 +205,13 @@ theorem holeP_complete {g pf : Nat} (ih : ∀ g', g' < g → CT g') {st : PState
   obtain ⟨g', hg, h2⟩ := mem_gTypeOrHole.mp h
   subst hg
   rcases h2 with ⟨k1, rfl, rfl⟩ | ⟨ty, hty, rfl⟩
-  · have l1 := len_of_peekTok k1
+  · have l1 := len_of_nextTok k1
     refine ⟨none, adv st, ?_, rfl, rfl, by omega⟩
     simp [holeP, k1, adv]
   · obtain ⟨t0, st', ht0, rfl, rfl, hl⟩ := ih g' (by omega) _ _ _ hty hf pf (by omega)
     have hin := gType_first hty
     have hnu : peekIs st .Underscore = false :=
-      (peekIs_false_iff _ _).mpr (peekTok_ne_of_peekIn hin (by decide))
+      (peekIs_false_iff _ _).mpr (nextTok_ne_of_peekIn hin (by decide))
     refine ⟨some t0, st', ?_, rfl, rfl, hl⟩
     simp [holeP, hnu, hin, ht0]
 
@@ -228,22 +228,22 @@ theorem parseType_complete_step (g : Nat) (ih : ∀ g', g' ≤ g → CT g') : CT
     ⟨k1, k2, a, b, ha, u, b1, hcomma, a2, b2, ha2, hclose, rfl⟩ |
     ⟨k1, k2, k3, k4, rfl, rfl⟩ | ⟨k1, rfl, rfl⟩
   iterate 13
-    (have l1 := len_of_peekTok k1
-     simp only [parseType, k1, next_of_peekTok k1, Except.ok.injEq, Prod.mk.injEq]
+    (have l1 := len_of_nextTok k1
+     simp only [parseType, k1, next_of_nextTok k1, Except.ok.injEq, Prod.mk.injEq]
      exact ⟨_, _, ⟨rfl, rfl⟩, by simp [eraseTy], rfl, by omega⟩)
   · -- tuple
     have hr1 := head_of_mem_t hclose
-    have l1 := len_of_peekTok k1
-    have l2 := len_of_peekTok k2
+    have l1 := len_of_nextTok k1
+    have l2 := len_of_nextTok k2
     obtain ⟨ys, st4, hdel, rfl, hne, hin, k5, habs5, hl4⟩ :=
       delimited_list1 .CloseAngle typePeeks (parseType pf) eraseTy (gType g) rfl (by decide)
         (fun st a r1 ha hf => by
           obtain ⟨x, st1, h1, h2, h3, h4⟩ := ih g (Nat.le_refl _) st a r1 ha
             (FollowLit.of_sep rfl (by decide) (by decide) hf) pf (by omega)
           exact ⟨x, st1, h1, h2, h3, h4, gType_first ha,
-            peekTok_ne_of_peekIn (gType_first ha) (by decide)⟩)
+            nextTok_ne_of_peekIn (gType_first ha) (by decide)⟩)
         g (adv (adv st)) hl hr1 pf (by omega)
-    have l5 := len_of_peekTok k5
+    have l5 := len_of_nextTok k5
     simp only [parseType, k1, parseToken_ok k1, parseToken_ok k2, hin, hdel, hne, parseToken_ok k5,
       Except.ok_bind, Bool.not_true, Bool.false_eq_true, if_false, Except.ok.injEq, Prod.mk.injEq]
     exact ⟨_, _, ⟨rfl, rfl⟩, by simp [eraseTy, eraseTys_eq_map], habs5, by omega⟩
@@ -252,9 +252,9 @@ theorem parseType_complete_step (g : Nat) (ih : ∀ g', g' ≤ g → CT g') : CT
     obtain ⟨t0, st3, ht0, rfl, rfl, hl3⟩ := ih g (Nat.le_refl _) _ _ _ ha
       (FollowLit.of_cons (k := .CloseAngle) rfl (by decide) hr1) pf (by omega)
     obtain ⟨k4, habs4⟩ := abs_adv_of_cons (k := .CloseAngle) rfl hr1
-    have l1 := len_of_peekTok k1
-    have l2 := len_of_peekTok k2
-    have l4 := len_of_peekTok k4
+    have l1 := len_of_nextTok k1
+    have l2 := len_of_nextTok k2
+    have l4 := len_of_nextTok k4
     simp only [parseType, k1, parseToken_ok k1, parseToken_ok k2, ht0, parseToken_ok k4,
       Except.ok_bind, Except.ok.injEq, Prod.mk.injEq]
     exact ⟨_, _, ⟨rfl, rfl⟩, by simp [eraseTy], habs4, by omega⟩
@@ -263,16 +263,16 @@ theorem parseType_complete_step (g : Nat) (ih : ∀ g', g' ≤ g → CT g') : CT
     obtain ⟨t0, st3, ht0, rfl, rfl, hl3⟩ := ih g (Nat.le_refl _) _ _ _ ha
       (FollowLit.of_cons (k := .CloseAngle) rfl (by decide) hr1) pf (by omega)
     obtain ⟨k4, habs4⟩ := abs_adv_of_cons (k := .CloseAngle) rfl hr1
-    have l1 := len_of_peekTok k1
-    have l2 := len_of_peekTok k2
-    have l4 := len_of_peekTok k4
+    have l1 := len_of_nextTok k1
+    have l2 := len_of_nextTok k2
+    have l4 := len_of_nextTok k4
     simp only [parseType, k1, parseToken_ok k1, parseToken_ok k2, ht0, parseToken_ok k4,
       Except.ok_bind, Except.ok.injEq, Prod.mk.injEq]
     exact ⟨_, _, ⟨rfl, rfl⟩, by simp [eraseTy], habs4, by omega⟩
   · -- result
-    have l1 := len_of_peekTok k1
+    have l1 := len_of_nextTok k1
     obtain ⟨k, hk, hnb⟩ := hfollow.peek
-    have hno : peekTok (adv st) ≠ some .OpenAngle := by
+    have hno : nextTok (adv st) ≠ some .OpenAngle := by
       intro h; rw [h] at hk; cases hk; simp at hnb
     rw [parseType_result pf st k1]
     simp only [parseToken_ok k1, parseOptional_none hno hfollow.peekErr, Except.ok_bind,
@@ -284,13 +284,13 @@ theorem parseType_complete_step (g : Nat) (ih : ∀ g', g' ≤ g → CT g') : CT
       (fun g' hg' => ih g' (by omega)) ha
       (FollowLit.of_cons (k := .CloseAngle) rfl (by decide) hr1) (by omega)
     obtain ⟨k4, habs4⟩ := abs_adv_of_cons (k := .CloseAngle) rfl hr1
-    have hnc : peekTok st3 ≠ some .Comma := by rw [k4]; decide
-    have l1 := len_of_peekTok k1
-    have l2 := len_of_peekTok k2
-    have l4 := len_of_peekTok k4
+    have hnc : nextTok st3 ≠ some .Comma := by rw [k4]; decide
+    have l1 := len_of_nextTok k1
+    have l2 := len_of_nextTok k2
+    have l4 := len_of_nextTok k4
     rw [parseType_result pf st k1]
     simp only [parseToken_ok k1, parseOptional_of_peek _ k2, ho, parseOptional_none hnc
-      (peekErr_of_peekTok k4), parseToken_ok k4, Except.ok_bind, Option.getD_none,
+      (peekErr_of_nextTok k4), parseToken_ok k4, Except.ok_bind, Option.getD_none,
       Except.ok.injEq, Prod.mk.injEq]
     exact ⟨_, _, ⟨rfl, rfl⟩, by simp [eraseTy, eraseTyOpt], habs4, by omega⟩
   · -- result<ok, err>
@@ -304,24 +304,24 @@ theorem parseType_complete_step (g : Nat) (ih : ∀ g', g' ≤ g → CT g') : CT
       (fun g' hg' => ih g' (by omega)) ha2
       (FollowLit.of_cons (k := .CloseAngle) rfl (by decide) hr1) (by omega)
     obtain ⟨k6, habs6⟩ := abs_adv_of_cons (k := .CloseAngle) rfl hr1
-    have l1 := len_of_peekTok k1
-    have l2 := len_of_peekTok k2
-    have l4 := len_of_peekTok k4
-    have l6 := len_of_peekTok k6
+    have l1 := len_of_nextTok k1
+    have l2 := len_of_nextTok k2
+    have l4 := len_of_nextTok k4
+    have l6 := len_of_nextTok k6
     rw [parseType_result pf st k1]
     simp only [parseToken_ok k1, parseOptional_of_peek _ k2, ho, parseOptional_of_peek _ k4, ho2,
       parseToken_ok k6, Except.ok_bind, Option.getD_some, Except.ok.injEq, Prod.mk.injEq]
     exact ⟨_, _, ⟨rfl, rfl⟩, by simp [eraseTy], habs6, by omega⟩
   · -- borrow
-    have l1 := len_of_peekTok k1
-    have l2 := len_of_peekTok k2
-    have l3 := len_of_peekTok k3
-    have l4 := len_of_peekTok k4
+    have l1 := len_of_nextTok k1
+    have l2 := len_of_nextTok k2
+    have l3 := len_of_nextTok k3
+    have l4 := len_of_nextTok k4
     simp only [parseType, k1, parseToken_ok k1, parseToken_ok k2, parseIdent_ok k3, parseToken_ok k4,
       Except.ok_bind, Except.ok.injEq, Prod.mk.injEq]
     exact ⟨_, _, ⟨rfl, rfl⟩, by simp [eraseTy, erase_identAt], rfl, by omega⟩
   · -- identifier
-    have l1 := len_of_peekTok k1
+    have l1 := len_of_nextTok k1
     simp only [parseType, k1, parseIdent_ok k1, Except.ok_bind, Except.ok.injEq, Prod.mk.injEq]
     exact ⟨_, _, ⟨rfl, rfl⟩, by simp [eraseTy, erase_identAt], rfl, by omega⟩
 
@@ -338,7 +338,7 @@ theorem parseType_complete (gf : Nat) :
 
 
 theorem gNamedType_first {g : Nat} {st : PState} {x : NamedType} {r : List STok}
-    (h : (x, r) ∈ gNamedType g (abs st)) : peekTok st = some .Ident := by
+    (h : (x, r) ∈ gNamedType g (abs st)) : nextTok st = some .Ident := by
   simp [gNamedType, mem_gId, and_assoc] at h
   exact h.1
 
@@ -348,8 +348,8 @@ theorem parseNamedType_complete (gf : Nat) :
   simp [gNamedType, mem_gId, and_assoc] at h
   obtain ⟨k1, k2, ty, hty, rfl⟩ := h
   obtain ⟨t0, st3, ht0, rfl, rfl, hl3⟩ := parseType_complete gf _ _ _ hty hf pf hpf
-  have l1 := len_of_peekTok k1
-  have l2 := len_of_peekTok k2
+  have l1 := len_of_nextTok k1
+  have l2 := len_of_nextTok k2
   simp only [parseNamedType, parseIdent_ok k1, parseToken_ok k2, ht0, Except.ok_bind,
     Except.ok.injEq, Prod.mk.injEq]
   exact ⟨_, _, ⟨rfl, rfl⟩, by simp [eraseNamedType, erase_identAt], rfl, by omega⟩
@@ -360,12 +360,12 @@ theorem delimited_list0 {α β : Type} (stop : Token) (peeks : List Token) (item
     (hitem : ∀ st a r1, (a, r1) ∈ p (abs st) →
         (r1.head? = some comma ∨ r1.head? = some (litTok stop)) →
         ∃ x st1, item st = .ok (x, st1) ∧ er x = a ∧ abs st1 = r1 ∧
-          st1.toks.length < st.toks.length ∧ peekIn st peeks = true ∧ peekTok st ≠ some stop)
+          st1.toks.length < st.toks.length ∧ peekIn st peeks = true ∧ nextTok st ≠ some stop)
     {xs : List β} {r1 r : List STok} (n : Nat) (st : PState)
     (h : (xs, r1) ∈ list0 p n (abs st)) (hr : r1 = litTok stop :: r) (fuel : Nat)
     (hfuel : n + 2 ≤ fuel) :
     ∃ ys st', parseDelimited stop true peeks item fuel st = .ok (ys, st') ∧ ys.map er = xs ∧
-      peekTok st' = some stop ∧ abs (adv st') = r ∧ st'.toks.length ≤ st.toks.length := by
+      nextTok st' = some stop ∧ abs (adv st') = r ∧ st'.toks.length ≤ st.toks.length := by
   rcases (mem_list0 _ _ _ _ _).mp h with h1 | ⟨rfl, rfl⟩
   · obtain ⟨ys, st', h1, h2, _, _, h5, h6, h7⟩ := delimited_list1 stop peeks item er p hstop hne hitem
       n st ((mem_list1 _ _ _ _ _).mpr h1) hr fuel hfuel
@@ -379,9 +379,9 @@ theorem delimited_list0 {α β : Type} (stop : Token) (peeks : List Token) (item
 /-- `'(' params? ')'` against the parser's `parse_delimited` over named types -/
 theorem paramList_complete {g pf : Nat} (hpf : g + 2 ≤ pf) {st : PState} {ps : List NamedType}
     {r : List STok} (h : (ps, r) ∈ gParamList g (abs st)) :
-    peekTok st = some .OpenParen ∧ ∃ ys st',
+    nextTok st = some .OpenParen ∧ ∃ ys st',
       parseDelimited .CloseParen true [.Ident] (parseNamedType pf) pf (adv st) = .ok (ys, st') ∧
-      ys.map eraseNamedType = ps ∧ peekTok st' = some .CloseParen ∧ abs (adv st') = r ∧
+      ys.map eraseNamedType = ps ∧ nextTok st' = some .CloseParen ∧ abs (adv st') = r ∧
       st'.toks.length ≤ (adv st).toks.length := by
   simp [gParamList, and_assoc] at h
   obtain ⟨k1, a, b, hl, hclose, rfl⟩ := h
@@ -396,7 +396,7 @@ theorem paramList_complete {g pf : Nat} (hpf : g + 2 ≤ pf) {st : PState} {ps :
     g (adv st) hl hr1 pf hpf⟩
 
 theorem gFuncType_first {g : Nat} {st : PState} {x : FuncType} {r : List STok}
-    (h : (x, r) ∈ gFuncType g (abs st)) : peekTok st = some .FuncKeyword := by
+    (h : (x, r) ∈ gFuncType g (abs st)) : nextTok st = some .FuncKeyword := by
   simp [gFuncType, and_assoc] at h
   exact h.1
 
@@ -406,13 +406,13 @@ theorem parseFuncType_complete (gf : Nat) :
   simp [gFuncType, and_assoc] at h
   obtain ⟨k1, ps, r1, hps, hres⟩ := h
   obtain ⟨k2, ys, st4, hdel, rfl, k5, rfl, hl4⟩ := paramList_complete hpf hps
-  have l1 := len_of_peekTok k1
-  have l2 := len_of_peekTok k2
-  have l5 := len_of_peekTok k5
+  have l1 := len_of_nextTok k1
+  have l2 := len_of_nextTok k2
+  have l5 := len_of_nextTok k5
   rcases hres with ⟨o, ⟨ty, ⟨u, b, harrow, hty⟩, rfl⟩, rfl⟩ | ⟨rfl, rfl⟩
   · rw [mem_t_Arrow] at harrow
     obtain ⟨k6, rfl⟩ := harrow
-    have l6 := len_of_peekTok k6
+    have l6 := len_of_nextTok k6
     obtain ⟨t0, st7, ht0, rfl, rfl, hl7⟩ := parseType_complete gf _ _ _ hty
       (hf.mono (by simp)) pf hpf
     have hin := gType_first hty
@@ -421,7 +421,7 @@ theorem parseFuncType_complete (gf : Nat) :
       Except.ok.injEq, Prod.mk.injEq]
     exact ⟨_, _, ⟨rfl, rfl⟩, by simp [eraseFuncType, eraseResultList], rfl, by omega⟩
   · obtain ⟨k, hk, hnb⟩ := hf.peek
-    have hno : peekTok (adv st4) ≠ some .Arrow := by
+    have hno : nextTok (adv st4) ≠ some .Arrow := by
       intro h; rw [h] at hk; cases hk; simp at hnb
     simp only [parseFuncType, parseToken_ok k1, parseToken_ok k2, hdel, parseToken_ok k5,
       parseOptional_none hno hf.peekErr, Except.ok_bind, Except.ok.injEq, Prod.mk.injEq]
@@ -436,7 +436,7 @@ theorem parseFuncTypeRef_complete (gf : Nat) :
     obtain ⟨f0, st', h0, rfl, rfl, hl⟩ := parseFuncType_complete gf _ _ _ hfn hf pf hpf
     simp only [parseFuncTypeRef, k1, h0, Except.ok_bind, Except.ok.injEq, Prod.mk.injEq]
     exact ⟨_, _, ⟨rfl, rfl⟩, by simp [eraseFuncTypeRef], rfl, hl⟩
-  · have l1 := len_of_peekTok k1
+  · have l1 := len_of_nextTok k1
     simp only [parseFuncTypeRef, k1, parseIdent_ok k1, Except.ok_bind, Except.ok.injEq, Prod.mk.injEq]
     exact ⟨_, _, ⟨rfl, rfl⟩, by simp [eraseFuncTypeRef, erase_identAt], rfl, by omega⟩
 
@@ -447,12 +447,12 @@ theorem delimited_many {α β : Type} (stop : Token) (peeks : List Token) (item 
     (er : α → β) (p : SP β) (hstop : isLit stop = true)
     (hitem : ∀ st a r1, (a, r1) ∈ p (abs st) →
         ∃ x st1, item st = .ok (x, st1) ∧ er x = a ∧ abs st1 = r1 ∧
-          st1.toks.length < st.toks.length ∧ peekIn st peeks = true ∧ peekTok st ≠ some stop)
+          st1.toks.length < st.toks.length ∧ peekIn st peeks = true ∧ nextTok st ≠ some stop)
     {xs : List β} {r1 r : List STok} (n : Nat) (st : PState)
     (h : (xs, r1) ∈ many p n (abs st)) (hr : r1 = litTok stop :: r) (fuel : Nat)
     (hfuel : n + 1 ≤ fuel) :
     ∃ ys st', parseDelimited stop false peeks item fuel st = .ok (ys, st') ∧ ys.map er = xs ∧
-      peekTok st' = some stop ∧ abs (adv st') = r ∧ st'.toks.length ≤ st.toks.length := by
+      nextTok st' = some stop ∧ abs (adv st') = r ∧ st'.toks.length ≤ st.toks.length := by
   obtain ⟨hm, hlen⟩ := (mem_many _ _ _ _ _).mp h
   have hstop' : r1.head? = some (litTok stop) := by rw [hr]; rfl
   obtain ⟨ys, st', hdel, hys, habs⟩ := parseDelimited_nocommas_complete stop peeks item er p hstop
@@ -482,10 +482,10 @@ theorem parseResourceMethod_complete (gf : Nat) :
     obtain ⟨k2, ys, st4, hdel, rfl, k5, rfl, hl4⟩ := paramList_complete hpf hps
     have hr1 := head_of_mem_t hsemi
     obtain ⟨k6, habs6⟩ := abs_adv_of_cons (k := .Semicolon) rfl hr1
-    have l1 := len_of_peekTok k1
-    have l2 := len_of_peekTok k2
-    have l5 := len_of_peekTok k5
-    have l6 := len_of_peekTok k6
+    have l1 := len_of_nextTok k1
+    have l2 := len_of_nextTok k2
+    have l5 := len_of_nextTok k5
+    have l6 := len_of_nextTok k6
     simp only [parseResourceMethod, k1, parseConstructor, parseToken_ok k1, parseToken_ok k2, hdel,
       parseToken_ok k5, parseToken_ok k6, Except.ok_bind, Except.ok.injEq, Prod.mk.injEq]
     exact ⟨_, _, ⟨rfl, rfl⟩, by simp [eraseResourceMethod], habs6, by omega⟩
@@ -496,10 +496,10 @@ theorem parseResourceMethod_complete (gf : Nat) :
     obtain ⟨k6, habs6⟩ := abs_adv_of_cons (k := .Semicolon) rfl hr1
     have hs : peekIs (adv (adv st)) .StaticKeyword = true := (peekIs_iff _ _).mpr k3
     have hadv : (adv (adv st)).next.2 = adv (adv (adv st)) := rfl
-    have l1 := len_of_peekTok k1
-    have l2 := len_of_peekTok k2
-    have l3 := len_of_peekTok k3
-    have l6 := len_of_peekTok k6
+    have l1 := len_of_nextTok k1
+    have l2 := len_of_nextTok k2
+    have l3 := len_of_nextTok k3
+    have l6 := len_of_nextTok k6
     simp only [parseResourceMethod, k1, parseMethod, parseIdent_ok k1, parseToken_ok k2, hs, if_true,
       hadv, hf0, parseToken_ok k6, Except.ok_bind, Except.ok.injEq, Prod.mk.injEq]
     exact ⟨_, _, ⟨rfl, rfl⟩, by simp [eraseResourceMethod, erase_identAt], habs6, by omega⟩
@@ -511,16 +511,16 @@ theorem parseResourceMethod_complete (gf : Nat) :
     have kf := gFuncType_first hfn
     have hs : peekIs (adv (adv st)) .StaticKeyword = false :=
       (peekIs_false_iff _ _).mpr (by rw [kf]; decide)
-    have l1 := len_of_peekTok k1
-    have l2 := len_of_peekTok k2
-    have l6 := len_of_peekTok k6
+    have l1 := len_of_nextTok k1
+    have l2 := len_of_nextTok k2
+    have l6 := len_of_nextTok k6
     simp only [parseResourceMethod, k1, parseMethod, parseIdent_ok k1, parseToken_ok k2, hs,
       Bool.false_eq_true, if_false, hf0, parseToken_ok k6, Except.ok_bind, Except.ok.injEq,
       Prod.mk.injEq]
     exact ⟨_, _, ⟨rfl, rfl⟩, by simp [eraseResourceMethod, erase_identAt], habs6, by omega⟩
 
 theorem gResourceDecl_first {g : Nat} {st : PState} {x : ResourceDecl} {r : List STok}
-    (h : (x, r) ∈ gResourceDecl g (abs st)) : peekTok st = some .ResourceKeyword := by
+    (h : (x, r) ∈ gResourceDecl g (abs st)) : nextTok st = some .ResourceKeyword := by
   simp [gResourceDecl, mem_gId, and_assoc] at h
   exact h.1
 
@@ -529,9 +529,9 @@ theorem parseResourceDecl_complete (gf : Nat) :
   intro st x r h _ pf hpf
   simp [gResourceDecl, mem_gId, and_assoc] at h
   rcases h with ⟨k1, k2, (⟨k3, rfl, rfl⟩ | ⟨k3, ms, b, hms, hclose, rfl⟩)⟩
-  · have l1 := len_of_peekTok k1
-    have l2 := len_of_peekTok k2
-    have l3 := len_of_peekTok k3
+  · have l1 := len_of_nextTok k1
+    have l2 := len_of_nextTok k2
+    have l3 := len_of_nextTok k3
     have hadv : (adv (adv st)).next.2 = adv (adv (adv st)) := rfl
     simp only [parseResourceDecl, parseToken_ok k1, parseIdent_ok k2, k3, hadv, Except.ok_bind,
       Except.ok.injEq, Prod.mk.injEq]
@@ -542,12 +542,12 @@ theorem parseResourceDecl_complete (gf : Nat) :
       (fun st a r1 ha => by
         obtain ⟨x, st1, h1, h2, h3, h4⟩ := parseResourceMethod_complete gf st a r1 ha trivial pf hpf
         exact ⟨x, st1, h1, h2, h3, h4, gResourceItem_first ha,
-          peekTok_ne_of_peekIn (gResourceItem_first ha) (by decide)⟩)
+          nextTok_ne_of_peekIn (gResourceItem_first ha) (by decide)⟩)
       gf (adv (adv (adv st))) hms hr1 pf (by omega)
-    have l1 := len_of_peekTok k1
-    have l2 := len_of_peekTok k2
-    have l3 := len_of_peekTok k3
-    have l6 := len_of_peekTok k6
+    have l1 := len_of_nextTok k1
+    have l2 := len_of_nextTok k2
+    have l3 := len_of_nextTok k3
+    have l6 := len_of_nextTok k6
     simp only [parseResourceDecl, parseToken_ok k1, parseIdent_ok k2, k3, parseToken_ok k3, hdel,
       parseToken_ok k6, Except.ok_bind, Except.ok.injEq, Prod.mk.injEq]
     exact ⟨_, _, ⟨rfl, rfl⟩, by simp [eraseResourceDecl, erase_identAt], habs6, by omega⟩
@@ -569,7 +569,7 @@ theorem gVariantDecl_eqC (g : Nat) : gVariantDecl g = (do
     t "}"; pure ⟨[], id, cases⟩) := rfl
 
 theorem gVariantCaseC_first {g : Nat} {st : PState} {x : VariantCase} {r : List STok}
-    (h : (x, r) ∈ gVariantCaseC g (abs st)) : peekTok st = some .Ident := by
+    (h : (x, r) ∈ gVariantCaseC g (abs st)) : nextTok st = some .Ident := by
   simp [gVariantCaseC, mem_gId, and_assoc] at h
   exact h.1
 
@@ -582,22 +582,22 @@ theorem parseVariantCase_complete (gf : Nat) :
     obtain ⟨t0, st3, ht0, rfl, rfl, hl3⟩ := parseType_complete gf _ _ _ hty
       (FollowLit.of_cons (k := .CloseParen) rfl (by decide) hr1) pf hpf
     obtain ⟨k4, habs4⟩ := abs_adv_of_cons (k := .CloseParen) rfl hr1
-    have l1 := len_of_peekTok k1
-    have l2 := len_of_peekTok k2
-    have l4 := len_of_peekTok k4
+    have l1 := len_of_nextTok k1
+    have l2 := len_of_nextTok k2
+    have l4 := len_of_nextTok k4
     simp only [parseVariantCase, parseIdent_ok k1, parseOptional_of_peek _ k2, ht0, parseToken_ok k4,
       Except.ok_bind, Except.ok.injEq, Prod.mk.injEq]
     exact ⟨_, _, ⟨rfl, rfl⟩, by simp [eraseVariantCase, erase_identAt], habs4, by omega⟩
   · obtain ⟨k, hk, hnb⟩ := hf.peek
-    have hno : peekTok (adv st) ≠ some .OpenParen := by
+    have hno : nextTok (adv st) ≠ some .OpenParen := by
       intro h; rw [h] at hk; cases hk; simp at hnb
-    have l1 := len_of_peekTok k1
+    have l1 := len_of_nextTok k1
     simp only [parseVariantCase, parseIdent_ok k1, parseOptional_none hno hf.peekErr,
       Except.ok_bind, Except.ok.injEq, Prod.mk.injEq]
     exact ⟨_, _, ⟨rfl, rfl⟩, by simp [eraseVariantCase, erase_identAt], rfl, by omega⟩
 
 theorem gVariantDecl_first {g : Nat} {st : PState} {x : VariantDecl} {r : List STok}
-    (h : (x, r) ∈ gVariantDecl g (abs st)) : peekTok st = some .VariantKeyword := by
+    (h : (x, r) ∈ gVariantDecl g (abs st)) : nextTok st = some .VariantKeyword := by
   rw [gVariantDecl_eqC] at h
   simp [mem_gId, and_assoc] at h
   exact h.1
@@ -618,10 +618,10 @@ theorem parseVariantDecl_complete (gf : Nat) :
         exact ⟨x, st1, h1, h2, h3, h4, by simp [peekIn_iff, gVariantCaseC_first ha],
           by simp [gVariantCaseC_first ha]⟩)
       gf (adv (adv (adv st))) hl hr1 pf (by omega)
-  have l1 := len_of_peekTok k1
-  have l2 := len_of_peekTok k2
-  have l3 := len_of_peekTok k3
-  have l6 := len_of_peekTok k6
+  have l1 := len_of_nextTok k1
+  have l2 := len_of_nextTok k2
+  have l3 := len_of_nextTok k3
+  have l6 := len_of_nextTok k6
   simp only [parseVariantDecl, parseToken_ok k1, parseIdent_ok k2, parseToken_ok k3, hdel,
     parseToken_ok k6, hne, Bool.false_eq_true, if_false, Except.ok_bind, Except.ok.injEq,
     Prod.mk.injEq]
@@ -640,7 +640,7 @@ theorem gRecordDecl_eqC (g : Nat) : gRecordDecl g = (do
     t "}"; pure ⟨[], id, fields⟩) := rfl
 
 theorem gFieldC_first {g : Nat} {st : PState} {x : Field} {r : List STok}
-    (h : (x, r) ∈ gFieldC g (abs st)) : peekTok st = some .Ident := by
+    (h : (x, r) ∈ gFieldC g (abs st)) : nextTok st = some .Ident := by
   simp [gFieldC] at h
   obtain ⟨n, hn, _⟩ := h
   exact gNamedType_first hn
@@ -655,7 +655,7 @@ theorem parseField_complete (gf : Nat) :
   exact ⟨_, _, ⟨rfl, rfl⟩, by simp [eraseField, eraseNamedType], rfl, hl⟩
 
 theorem gRecordDecl_first {g : Nat} {st : PState} {x : RecordDecl} {r : List STok}
-    (h : (x, r) ∈ gRecordDecl g (abs st)) : peekTok st = some .RecordKeyword := by
+    (h : (x, r) ∈ gRecordDecl g (abs st)) : nextTok st = some .RecordKeyword := by
   rw [gRecordDecl_eqC] at h
   simp [mem_gId, and_assoc] at h
   exact h.1
@@ -676,10 +676,10 @@ theorem parseRecordDecl_complete (gf : Nat) :
         exact ⟨x, st1, h1, h2, h3, h4, by simp [peekIn_iff, gFieldC_first ha],
           by simp [gFieldC_first ha]⟩)
       gf (adv (adv (adv st))) hl hr1 pf (by omega)
-  have l1 := len_of_peekTok k1
-  have l2 := len_of_peekTok k2
-  have l3 := len_of_peekTok k3
-  have l6 := len_of_peekTok k6
+  have l1 := len_of_nextTok k1
+  have l2 := len_of_nextTok k2
+  have l3 := len_of_nextTok k3
+  have l6 := len_of_nextTok k6
   simp only [parseRecordDecl, parseToken_ok k1, parseIdent_ok k2, parseToken_ok k3, hdel,
     parseToken_ok k6, hne, Bool.false_eq_true, if_false, Except.ok_bind, Except.ok.injEq,
     Prod.mk.injEq]
@@ -703,13 +703,13 @@ theorem gEnumDecl_eqC (g : Nat) : gEnumDecl g = (do
     t "}"; pure ⟨[], id, cases⟩) := rfl
 
 theorem gFlagsDecl_first {g : Nat} {st : PState} {x : FlagsDecl} {r : List STok}
-    (h : (x, r) ∈ gFlagsDecl g (abs st)) : peekTok st = some .FlagsKeyword := by
+    (h : (x, r) ∈ gFlagsDecl g (abs st)) : nextTok st = some .FlagsKeyword := by
   rw [gFlagsDecl_eqC] at h
   simp [mem_gId, and_assoc] at h
   exact h.1
 
 theorem gEnumDecl_first {g : Nat} {st : PState} {x : EnumDecl} {r : List STok}
-    (h : (x, r) ∈ gEnumDecl g (abs st)) : peekTok st = some .EnumKeyword := by
+    (h : (x, r) ∈ gEnumDecl g (abs st)) : nextTok st = some .EnumKeyword := by
   rw [gEnumDecl_eqC] at h
   simp [mem_gId, and_assoc] at h
   exact h.1
@@ -726,15 +726,15 @@ theorem parseFlagsDecl_complete (gf : Nat) :
       (fun st a r1 ha _ => by
         simp [gFlagC, mem_gId] at ha
         obtain ⟨i, ⟨k1, rfl, rfl⟩, rfl⟩ := ha
-        have l1 := len_of_peekTok k1
+        have l1 := len_of_nextTok k1
         refine ⟨⟨parseDocs st, identAt (tokAt st)⟩, adv st, ?_, by simp [eraseFlag, erase_identAt],
           rfl, by omega, by simp [peekIn_iff, k1], by simp [k1]⟩
         simp [parseFlag, parseIdent_ok k1])
       gf (adv (adv (adv st))) hl hr1 pf (by omega)
-  have l1 := len_of_peekTok k1
-  have l2 := len_of_peekTok k2
-  have l3 := len_of_peekTok k3
-  have l6 := len_of_peekTok k6
+  have l1 := len_of_nextTok k1
+  have l2 := len_of_nextTok k2
+  have l3 := len_of_nextTok k3
+  have l6 := len_of_nextTok k6
   simp only [parseFlagsDecl, parseToken_ok k1, parseIdent_ok k2, parseToken_ok k3, hdel,
     parseToken_ok k6, hne, Bool.false_eq_true, if_false, Except.ok_bind, Except.ok.injEq,
     Prod.mk.injEq]
@@ -752,16 +752,16 @@ theorem parseEnumDecl_complete (gf : Nat) :
       (fun st a r1 ha _ => by
         simp [gEnumCaseC, mem_gId] at ha
         obtain ⟨i, ⟨k1, rfl, rfl⟩, rfl⟩ := ha
-        have l1 := len_of_peekTok k1
+        have l1 := len_of_nextTok k1
         refine ⟨⟨parseDocs st, identAt (tokAt st)⟩, adv st, ?_,
           by simp [eraseEnumCase, erase_identAt], rfl, by omega, by simp [peekIn_iff, k1],
           by simp [k1]⟩
         simp [parseEnumCase, parseIdent_ok k1])
       gf (adv (adv (adv st))) hl hr1 pf (by omega)
-  have l1 := len_of_peekTok k1
-  have l2 := len_of_peekTok k2
-  have l3 := len_of_peekTok k3
-  have l6 := len_of_peekTok k6
+  have l1 := len_of_nextTok k1
+  have l2 := len_of_nextTok k2
+  have l3 := len_of_nextTok k3
+  have l6 := len_of_nextTok k6
   simp only [parseEnumDecl, parseToken_ok k1, parseIdent_ok k2, parseToken_ok k3, hdel,
     parseToken_ok k6, hne, Bool.false_eq_true, if_false, Except.ok_bind, Except.ok.injEq,
     Prod.mk.injEq]
@@ -770,7 +770,7 @@ theorem parseEnumDecl_complete (gf : Nat) :
 /-! ### type aliases -/
 
 theorem gTypeAlias_first {g : Nat} {st : PState} {x : TypeAlias} {r : List STok}
-    (h : (x, r) ∈ gTypeAlias g (abs st)) : peekTok st = some .TypeKeyword := by
+    (h : (x, r) ∈ gTypeAlias g (abs st)) : nextTok st = some .TypeKeyword := by
   simp [gTypeAlias, mem_gId, and_assoc] at h
   exact h.1
 
@@ -785,10 +785,10 @@ theorem parseTypeAlias_complete (gf : Nat) :
     obtain ⟨k6, habs6⟩ := abs_adv_of_cons (k := .Semicolon) rfl hr1
     have hfk : peekIs (adv (adv (adv st))) .FuncKeyword = true :=
       (peekIs_iff _ _).mpr (gFuncType_first hfn)
-    have l1 := len_of_peekTok k1
-    have l2 := len_of_peekTok k2
-    have l3 := len_of_peekTok k3
-    have l6 := len_of_peekTok k6
+    have l1 := len_of_nextTok k1
+    have l2 := len_of_nextTok k2
+    have l3 := len_of_nextTok k3
+    have l6 := len_of_nextTok k6
     simp only [parseTypeAlias, parseToken_ok k1, parseIdent_ok k2, parseToken_ok k3,
       parseTypeAliasKind, hfk, if_true, hf0, parseToken_ok k6, Except.ok_bind, Except.ok.injEq,
       Prod.mk.injEq]
@@ -800,11 +800,11 @@ theorem parseTypeAlias_complete (gf : Nat) :
     obtain ⟨k6, habs6⟩ := abs_adv_of_cons (k := .Semicolon) rfl hr1
     have hin := gType_first hty
     have hfk : peekIs (adv (adv (adv st))) .FuncKeyword = false :=
-      (peekIs_false_iff _ _).mpr (peekTok_ne_of_peekIn hin (by decide))
-    have l1 := len_of_peekTok k1
-    have l2 := len_of_peekTok k2
-    have l3 := len_of_peekTok k3
-    have l6 := len_of_peekTok k6
+      (peekIs_false_iff _ _).mpr (nextTok_ne_of_peekIn hin (by decide))
+    have l1 := len_of_nextTok k1
+    have l2 := len_of_nextTok k2
+    have l3 := len_of_nextTok k3
+    have l6 := len_of_nextTok k6
     simp only [parseTypeAlias, parseToken_ok k1, parseIdent_ok k2, parseToken_ok k3,
       parseTypeAliasKind, hfk, Bool.false_eq_true, if_false, hin, if_true, ht0, parseToken_ok k6,
       Except.ok_bind, Except.ok.injEq, Prod.mk.injEq]
